@@ -334,3 +334,19 @@ Theorem competition_refuted :
     dated_by r line None 0 = Some 1709251199000000000%Z /\
     dated_by r' line None 0 = Some 1709251199500000000%Z.
 Proof. exists 74, 79, (s2b "2024-02-29 23:59:59.5 x"). vm_compute. repeat split; reflexivity. Qed.
+
+(* hypotheses of plan_search / first_way are satisfiable *)
+Example plan_search_example :
+  chain_ok true (rx_re iso_rx) iso_plan = true /\
+  texts_ok iso_plan (iso_texts 2024 2 29 23 59 59 32) (s2b "up") = true /\
+  search (rx_re iso_rx) (concat (iso_texts 2024 2 29 23 59 59 32) ++ s2b "up") =
+    Match (0, mkC 20 (s2b "up") (final_caps iso_plan (iso_texts 2024 2 29 23 59 59 32) (s2b "up") 0)).
+Proof. vm_compute. repeat split; reflexivity. Qed.
+
+Example first_way_example :
+  let r := RRep 1 None true (RClass false (mkCls false [CPosix false P_digit])) in
+  let s := mkC 0 (s2b "2024-") [] in
+  let s1 := mkC 4 (s2b "-") [] in
+  let k := fun s' : cst => cm cst 6 (RBytes [45]) s' accept in
+  cm cst 6 r s accept = Match s1 /\ k s1 <> NoMatch /\ cm cst 6 r s k = k s1.
+Proof. vm_compute. repeat split; try reflexivity. discriminate. Qed.
